@@ -32,6 +32,8 @@ def run(prog: Program, rep: Report):
     rep.attempt(lambda: rule_mixin_surface(prog, rep, "C06.R11", [cf.cls]))
     from .cachefam import rule_accepts_capacity
     rep.attempt(lambda: rule_accepts_capacity(prog, rep, cf, "C06.R14"))
+    from .cachefam import rule_failed_lookup_noop
+    rep.attempt(lambda: rule_failed_lookup_noop(prog, rep, cf, "C06.R15"))
     from .cachefam import rule_value_parametric
 
     def is_value(e, f, flow):
